@@ -553,7 +553,7 @@ def it_next_http(it, st, itv, fr):
 
 
 from . import models_std as _ms
-_ms.EXTRA_ITER_KINDS = {'hvals': it_next_http, 'mtlist': it_next_http}
+_ms.EXTRA_ITER_KINDS.update({'hvals': it_next_http, 'mtlist': it_next_http})
 
 MODELS += [
     (r'conjure_error::Error::service(_safe)?::<.*>|conjure_error::Error::propagated_service(_safe)?::<.*>', M_error_service),
